@@ -18,6 +18,8 @@ import (
 )
 
 var verifDir = "/verif"
+var evidenceDir = ""
+var scratchDir = ""
 
 func loadSpecs(repo string) (*Specs, error) {
 	S := newSpecs()
@@ -306,7 +308,10 @@ func cmdCheck(args []string) {
 	prop := fs.String("prop", "", "")
 	tier := fs.String("tier", "quick", "")
 	verbose := fs.Bool("v", false, "")
+	evdir := fs.String("evdir", "", "directory for the evidence file (default /verif/evidence)")
+	outdirF := fs.String("outdir", "", "scratch directory for SMT files and replay files (default /verif/out/<prop>)")
 	fs.Parse(args)
+	evidenceDir = *evdir
 	if t := os.Getenv("VERIF_TIER"); t == "quick" || t == "thorough" {
 		*tier = t
 	}
@@ -330,6 +335,10 @@ func cmdCheck(args []string) {
 		timeout = 60
 	}
 	outDir := filepath.Join(verifDir, "out", *prop)
+	if *outdirF != "" {
+		outDir = *outdirF
+	}
+	scratchDir = outDir
 	os.RemoveAll(outDir)
 	E, err := newEngine(*repo, Options{Timeout: timeout, OutDir: outDir, Tier: *tier, Seed: seed, Verbose: *verbose, KeepSmt: true})
 	if err != nil {
